@@ -5,8 +5,9 @@ package c03
 // schedule (reference) and once with preemption-bounded scheduling: at every synchronisation
 // point of the whole interpreter (mutex acquisition, channel operation, WaitGroup.Wait,
 // goroutine start) the running goroutine may be preempted in favour of any other runnable
-// goroutine, at most k times. Every such schedule must terminate with the same stdout,
-// stderr and exit number.
+// goroutine, at most k times; in a second family of schedules one goroutine (any one) is late:
+// it is passed over by the scheduler up to `late` times while anybody else can run. Every such
+// schedule must terminate with the same stdout, stderr and exit number.
 
 import (
 	"github.com/lmorg/murex/zzverif/mx"
@@ -24,6 +25,10 @@ var programs = []string{
 	"if { out a -> match a } then { out yes } else { out no }",
 	"tout json ([1,2,3]) -> [ 1 ]",
 	"out a -> cast str -> match a -> cast str",
+	// stages that never read their stdin: the pipeline must still wait for every stage
+	"err foo | out x | out y; err after",
+	"out a | out b | out c; out d",
+	"%[1 2] -> foreach i { err $i | out x | out y }",
 }
 
 func VerifC03Schedules() {
@@ -40,10 +45,22 @@ func VerifC03Schedules() {
 	if !rt.Symbolic() {
 		runs = 40
 	}
+	// two families of schedules: (0) at most k preemptions of a running goroutine at
+	// synchronisation points; (1) one goroutine - any one started by the run - is late: the
+	// scheduler passes it over up to `late` times while anybody else can run
+	mode := 0
+	if rt.Param("late") > 0 {
+		mode = rt.Choice("family", 2)
+	}
 	for r := 0; r < runs; r++ {
-		rt.PreemptBound(rt.Param("k"))
+		if mode == 0 {
+			rt.PreemptBound(rt.Param("k"))
+		} else {
+			rt.LateGoroutine(rt.Param("late"))
+		}
 		o2, e2, x2, err2 := mx.Run(p)
 		rt.PreemptBound(0)
+		rt.LateGoroutine(0)
 		rt.Reach("scheduled-run")
 		rt.Assert(err2 == nil, "scheduled run does not compile")
 		rt.Assert(o2 == o1, "stdout depends on the schedule: "+o1+" / "+o2)
